@@ -200,6 +200,11 @@ def check_case(rows, tier, seed, rep=None, want=None):
         try:
             jf = autodiff.compile_jacobian(es, V)
             fns.append(("compile_jacobian:" + jf.__name__, lambda x, f=InPlace(jf): np.asarray(f(x), dtype=float)))
+            from mc.callers import typed_point_mismatch
+
+            tm = typed_point_mismatch(jf, len(vn))
+            if tm is not None:
+                fails.add("point-dtype-leaks-into-jacobian:" + jf.__name__, V=vlab, **tm)
         except Exception as ex:
             fails.add("exception:compile_jacobian:" + type(ex).__name__, V=vlab, msg=str(ex)[:200])
         if len(es) == 1:
